@@ -69,7 +69,8 @@ void harness (void)
   if (!ret && g_find_found) REACH ("oom");
   if (ret && G.handler_calls == 1 && SLEN (&auth->incoming) > 0) REACH ("handled-with-leftover");
 #elif VERIF_FN == 2
-  g_pc_lines = 0;
+  g_pc_lines = 0; g_pc_consumed = 0; g_pc_last_was_begin = 0;
+  g_watch_out = NULL; g_watch_in = NULL;      /* line bookkeeping of the string model is not needed here (keeps the loop's write set small) */
   DBusAuthState r = _dbus_auth_do_work (auth);
   ASSERT_AUTH_INV (auth);
   POST (r == DBUS_AUTH_STATE_WAITING_FOR_INPUT || r == DBUS_AUTH_STATE_WAITING_FOR_MEMORY || r == DBUS_AUTH_STATE_HAVE_BYTES_TO_SEND || r == DBUS_AUTH_STATE_NEED_DISCONNECT || r == DBUS_AUTH_STATE_AUTHENTICATED,
